@@ -1,19 +1,41 @@
 import Cfdm.Lemmas.Subsample
+import Cfdm.Lemmas.SubsampleGen
+import Cfdm.Lemmas.SubsampleIx
+import Cfdm.Lemmas.SubsampleParam
+import Cfdm.Lemmas.SubsampleRead
+import Cfdm.Lemmas.SubsampleGeo
 /-
 C16 — subsampled coordinates are reconstituted by the stated interpolation.
-Property theorems only.  Model: `Cfdm/Model/Subsample.lean` (the code's subarea
-loop, `_s`, `_trim`, `_broadcast_bounds`, block assignment); specification:
-`Cfdm/Spec/AppendixJ.lean` (CF 8.3 / Appendix J, no loop, no `first` flag).
+Property theorems only.
+
+Models (core Lean, mirroring the code as it performs it):
+* `Cfdm/Model/Subsample.lean`      the subarea loop, `_s`, `_trim`, `_broadcast_bounds`, block assignment,
+                                   linear / bi_linear / quadratic formulas;
+* `Cfdm/Model/SubsampleIx.lean`    `__getitem__`: first/last element shortcut + orthogonal subspace;
+* `Cfdm/Model/SubsampleParam.lean` `_conformed_parameters`, `_conformed_dependent_tie_points`, `_select_parameter`;
+* `Cfdm/Model/SubsampleRead.lean`  the netCDF reader's bookkeeping;
+* `Cfdm/Model/SubsampleGeo.lean`   quadratic_latitude_longitude, bi_quadratic_latitude_longitude over uninterpreted
+                                   trigonometric primitives (`Geo`).
+Specification: `Cfdm/Spec/AppendixJ.lean` (CF 8.3 / Appendix J, no loop, no `first` flag).
 Arithmetic is exact (`Rat`); floats are not modelled.
 
 Hypotheses used below
 * `t.Pairwise (· < ·)`      the tie point index vector is strictly increasing;
 * `wfAreas true t = true`    … and every continuous area has at least two tie points
                              (adjacent indices differing by one = area boundary);
-* `∀ x ∈ t, x < n`           every tie point index addresses the target dimension.
+* `∀ x ∈ t, x < n`           every tie point index addresses the target dimension;
+* `RoundTrip G latitude tp`  (latitude/longitude methods) the tie points survive the conversion to a unit
+                             vector and back — a hypothesis on `Geo`, not an axiom.
+
+Where /repo HEAD differs from the model a patch is proposed (fixes/C16-*.patch, open entries of
+known_findings.json) and the behaviour of HEAD is kept as a `…Old` definition / `bcast = false` with a
+`decide` witness: `C16_parameter_broadcast_counterexample`, `C16_old_qll_noncartesian_counterexample`,
+`C16_old_dependent_dimensions_counterexample`, `C16_old_flags_not_conformed_counterexample` (the
+fifth open finding, float32 tie points, is outside an exact-arithmetic model); repaired earlier: `C16_old_last_shortcut_counterexample`,
+`C16_old_getitem_2d_bounds_counterexample`, `C16_old_conform_counterexample`.
 -/
 namespace Cfdm.Props.C16
-open Cfdm.Subsample Cfdm.Spec.AppendixJ
+open Cfdm.Subsample Cfdm.Spec.AppendixJ Cfdm.PySlice Cfdm.Arr
 
 /-- A 1-d method reproduces its end values at `s = 0` and `s = 1`. -/
 def Endpoints (F : Method) : Prop := (∀ j a b, F j a b 0 = a) ∧ (∀ j a b, F j a b 1 = b)
@@ -339,6 +361,195 @@ theorem C16_bounds_contiguous (F : Method) (hF : Endpoints F) (t : List Nat) (n 
     simp only [lowVertex, Bool.false_eq_true, if_false, sParam, sub_self, zero_div, hF.1]
     exact ⟨_, rfl⟩
 
+/-! ### bounds over two subsampled dimensions (`bi_linear` bounds tie points) -/
+
+/-- The vertex grid value of CF 8.3.9 inside the 2-d interpolation subarea `(k0, k1)`. -/
+def V2 (btp : List (List Rat)) (t0 t1 : List Nat) (k0 a0 b0 k1 a1 b1 : Nat) (g0 g1 : Nat) : Rat :=
+  vertexValue (get2 btp k0 k1) (get2 btp k0 (k1 + 1)) (get2 btp (k0 + 1) k1) (get2 btp (k0 + 1) (k1 + 1))
+    (lowVertex (areaStart t0 k0) a0) b0 (lowVertex (areaStart t1 k1) a1) b1 g0 g1
+
+/-- **Reconstitution of bounds, two subsampled dimensions.**  For strictly increasing index
+vectors along both dimensions, tie point pairs `k0` (indices `a0`, `b0`) and `k1` (`a1`, `b1`)
+that are not area boundaries, and every cell `(p0, p1)` of that interpolation subarea (from
+the subarea's low vertex — `a` if tie point `k` opens its continuous area, else `a + 1` — up
+to `b`, in each dimension): the four bounds of the cell are the vertices `(p0, p1)`,
+`(p0, p1 + 1)`, `(p0 + 1, p1 + 1)`, `(p0 + 1, p1)` of the vertex grid, in this order, each the
+bi-linear interpolation of the four bounds tie points of the subarea at
+`s = (g - v) / (b + 1 - v)` in each dimension.  Product order of the subareas, `first` flags,
+`_broadcast_bounds` slicing and `_trim` do not appear in the statement. -/
+theorem C16_bilinear_bounds_reconstitution (t0 t1 : List Nat) (n0 n1 : Nat) (btp : List (List Rat))
+    (hinc0 : t0.Pairwise (· < ·)) (hinc1 : t1.Pairwise (· < ·))
+    (hn0 : ∀ x ∈ t0, x < n0) (hn1 : ∀ x ∈ t1, x < n1)
+    (k0 a0 b0 : Nat) (ha0 : t0[k0]? = some a0) (hb0 : t0[k0 + 1]? = some b0) (hg0 : a0 + 2 ≤ b0)
+    (k1 a1 b1 : Nat) (ha1 : t1[k1]? = some a1) (hb1 : t1[k1 + 1]? = some b1) (hg1 : a1 + 2 ≤ b1)
+    (p0 : Nat) (h0 : lowVertex (areaStart t0 k0) a0 ≤ p0) (h0' : p0 ≤ b0)
+    (p1 : Nat) (h1 : lowVertex (areaStart t1 k1) a1 ≤ p1) (h1' : p1 ≤ b1) :
+    ((recon2b n0 n1 t0 t1 btp)[p0]?.bind (·[p1]?)) =
+      some (some (cellVertices (V2 btp t0 t1 k0 a0 b0 k1 a1 b1) p0 p1)) := by
+  obtain ⟨row, hr, hv⟩ := recon2b_get t0 t1 n0 n1 btp hinc0 hinc1 hn0 hn1 k0 a0 b0 ha0 hb0 hg0
+    k1 a1 b1 ha1 hb1 hg1 p0 h0 h0' p1 h1 h1'
+  rw [hr, Option.bind_some, hv]
+  simp only [cellVertices, V2]
+  have e0 : p0 - lowVertex (areaStart t0 k0) a0 + 1 = p0 + 1 - lowVertex (areaStart t0 k0) a0 := by omega
+  have e1 : p1 - lowVertex (areaStart t1 k1) a1 + 1 = p1 + 1 - lowVertex (areaStart t1 k1) a1 := by omega
+  rw [e0, e1]
+  rw [vertex2_eq_spec btp k0 _ a0 b0 k1 _ a1 b1 _ _ hg0 hg1 p0 p1 h0 h1,
+    vertex2_eq_spec btp k0 _ a0 b0 k1 _ a1 b1 _ _ hg0 hg1 p0 (p1 + 1) h0 (by omega),
+    vertex2_eq_spec btp k0 _ a0 b0 k1 _ a1 b1 _ _ hg0 hg1 (p0 + 1) (p1 + 1) (by omega) (by omega),
+    vertex2_eq_spec btp k0 _ a0 b0 k1 _ a1 b1 _ _ hg0 hg1 (p0 + 1) p1 (by omega) h1]
+
+example : ((recon2b 3 3 [0, 2] [0, 2] [[0, 1], [2, 4]])[2]?.bind (·[2]?)) =
+    some (some [22 / 9, 3, 4, 10 / 3]) := by decide +kernel
+example : cellVertices (V2 [[0, 1], [2, 4]] [0, 2] [0, 2] 0 0 2 0 0 2) 2 2 = [22 / 9, 3, 4, 10 / 3] := by
+  decide +kernel
+/-- two subareas in each dimension, the second not opening its area -/
+example : ((recon2b 5 5 [0, 2, 4] [0, 2, 4] [[0, 1, 2], [3, 4, 5], [6, 7, 9]])[3]?.bind (·[4]?)) =
+    some (some (cellVertices (V2 [[0, 1, 2], [3, 4, 5], [6, 7, 9]] [0, 2, 4] [0, 2, 4] 1 2 4 1 2 4) 3 4)) := by
+  decide +kernel
+
+/-- `vertexValue` at the corners of the vertex grid of a subarea is the bounds tie point. -/
+theorem vertexValue_corners (ua ub uc ud : Rat) (v0 b0 v1 b1 : Nat) (h0 : v0 ≤ b0) (h1 : v1 ≤ b1) :
+    vertexValue ua ub uc ud v0 b0 v1 b1 v0 v1 = ua ∧
+    vertexValue ua ub uc ud v0 b0 v1 b1 v0 (b1 + 1) = ub ∧
+    vertexValue ua ub uc ud v0 b0 v1 b1 (b0 + 1) v1 = uc ∧
+    vertexValue ua ub uc ud v0 b0 v1 b1 (b0 + 1) (b1 + 1) = ud := by
+  have e0 := sParam_ends v0 (b0 + 1) (by omega)
+  have e1 := sParam_ends v1 (b1 + 1) (by omega)
+  simp only [vertexValue, e0.1, e0.2, e1.1, e1.2, fbl]
+  refine ⟨by ring, by ring, by ring, by ring⟩
+
+/-- **The four bounds tie points of a 2-d interpolation subarea are reproduced exactly** at
+the corner vertices of its vertex grid: the first bound of its first cell, the second bound
+of the last cell of its first row, the third bound of its last cell and the fourth bound of
+the first cell of its last row. -/
+theorem C16_bilinear_bounds_corners (t0 t1 : List Nat) (n0 n1 : Nat) (btp : List (List Rat))
+    (hinc0 : t0.Pairwise (· < ·)) (hinc1 : t1.Pairwise (· < ·))
+    (hn0 : ∀ x ∈ t0, x < n0) (hn1 : ∀ x ∈ t1, x < n1)
+    (k0 a0 b0 : Nat) (ha0 : t0[k0]? = some a0) (hb0 : t0[k0 + 1]? = some b0) (hg0 : a0 + 2 ≤ b0)
+    (k1 a1 b1 : Nat) (ha1 : t1[k1]? = some a1) (hb1 : t1[k1 + 1]? = some b1) (hg1 : a1 + 2 ≤ b1) :
+    let v0 := lowVertex (areaStart t0 k0) a0
+    let v1 := lowVertex (areaStart t1 k1) a1
+    let cell := fun p0 p1 => ((recon2b n0 n1 t0 t1 btp)[p0]?.bind (·[p1]?))
+    (∃ x y z, cell v0 v1 = some (some [get2 btp k0 k1, x, y, z])) ∧
+    (∃ x y z, cell v0 b1 = some (some [x, get2 btp k0 (k1 + 1), y, z])) ∧
+    (∃ x y z, cell b0 b1 = some (some [x, y, get2 btp (k0 + 1) (k1 + 1), z])) ∧
+    (∃ x y z, cell b0 v1 = some (some [x, y, z, get2 btp (k0 + 1) k1])) := by
+  intro v0 v1 cell
+  have hv0 : v0 ≤ b0 := by simp only [v0, lowVertex]; split <;> omega
+  have hv1 : v1 ≤ b1 := by simp only [v1, lowVertex]; split <;> omega
+  have key := fun p0 h0 h0' p1 h1 h1' => C16_bilinear_bounds_reconstitution t0 t1 n0 n1 btp hinc0 hinc1
+    hn0 hn1 k0 a0 b0 ha0 hb0 hg0 k1 a1 b1 ha1 hb1 hg1 p0 h0 h0' p1 h1 h1'
+  have c := vertexValue_corners (get2 btp k0 k1) (get2 btp k0 (k1 + 1)) (get2 btp (k0 + 1) k1)
+    (get2 btp (k0 + 1) (k1 + 1)) v0 b0 v1 b1 hv0 hv1
+  refine ⟨?_, ?_, ?_, ?_⟩
+  · simp only [cell]
+    rw [key v0 (Nat.le_refl _) hv0 v1 (Nat.le_refl _) hv1]
+    simp only [cellVertices, V2]
+    rw [c.1]
+    exact ⟨_, _, _, rfl⟩
+  · simp only [cell]
+    rw [key v0 (Nat.le_refl _) hv0 b1 hv1 (Nat.le_refl _)]
+    simp only [cellVertices, V2]
+    rw [c.2.1]
+    exact ⟨_, _, _, rfl⟩
+  · simp only [cell]
+    rw [key b0 hv0 (Nat.le_refl _) b1 hv1 (Nat.le_refl _)]
+    simp only [cellVertices, V2]
+    rw [c.2.2.2]
+    exact ⟨_, _, _, rfl⟩
+  · simp only [cell]
+    rw [key b0 hv0 (Nat.le_refl _) v1 (Nat.le_refl _) hv1]
+    simp only [cellVertices, V2]
+    rw [c.2.2.1]
+    exact ⟨_, _, _, rfl⟩
+
+/-- A tie point that follows a subarea does not open a continuous area. -/
+theorem areaStart_after_gap (t : List Nat) (k a b : Nat) (ha : t[k]? = some a) (hb : t[k + 1]? = some b)
+    (hab : a + 2 ≤ b) : areaStart t (k + 1) = false := by
+  have e1 : t.getD (k + 1) 0 = b := by simp [List.getD, hb]
+  have e2 : t.getD k 0 = a := by simp [List.getD, ha]
+  simp only [areaStart, startAt, e1, e2, decide_eq_false_iff_not]
+  omega
+
+/-- **2-d bounds are contiguous across interpolation subareas along the second subsampled
+dimension**: in every row `p0` of the subarea row `k0`, the last cell of subarea `k1` and the
+first cell of subarea `k1 + 1` (same continuous area) share their common edge — bounds 1, 2 of
+the former are bounds 0, 3 of the latter — and that edge lies on the line between the two
+bounds tie points `(k0, k1 + 1)`, `(k0 + 1, k1 + 1)`. -/
+theorem C16_bilinear_bounds_contiguous_1 (t0 t1 : List Nat) (n0 n1 : Nat) (btp : List (List Rat))
+    (hinc0 : t0.Pairwise (· < ·)) (hinc1 : t1.Pairwise (· < ·))
+    (hn0 : ∀ x ∈ t0, x < n0) (hn1 : ∀ x ∈ t1, x < n1)
+    (k0 a0 b0 : Nat) (ha0 : t0[k0]? = some a0) (hb0 : t0[k0 + 1]? = some b0) (hg0 : a0 + 2 ≤ b0)
+    (k1 a1 b1 c1 : Nat) (ha1 : t1[k1]? = some a1) (hb1 : t1[k1 + 1]? = some b1)
+    (hc1 : t1[k1 + 2]? = some c1) (hg1 : a1 + 2 ≤ b1) (hg1' : b1 + 2 ≤ c1)
+    (p0 : Nat) (h0 : lowVertex (areaStart t0 k0) a0 ≤ p0) (h0' : p0 ≤ b0) :
+    let e := fun g0 => fl (get2 btp k0 (k1 + 1)) (get2 btp (k0 + 1) (k1 + 1))
+      (sParam (lowVertex (areaStart t0 k0) a0) (b0 + 1) g0)
+    (∃ x w, ((recon2b n0 n1 t0 t1 btp)[p0]?.bind (·[b1]?)) = some (some [x, e p0, e (p0 + 1), w])) ∧
+    (∃ y z, ((recon2b n0 n1 t0 t1 btp)[p0]?.bind (·[b1 + 1]?)) = some (some [e p0, y, z, e (p0 + 1)])) := by
+  intro e
+  have hst := areaStart_after_gap t1 k1 a1 b1 ha1 hb1 hg1
+  have hv1 : lowVertex (areaStart t1 k1) a1 ≤ b1 := by simp only [lowVertex]; split <;> omega
+  have s1 := sParam_ends (lowVertex (areaStart t1 k1) a1) (b1 + 1) (by omega)
+  have s2 := sParam_ends (b1 + 1) (c1 + 1) (by omega)
+  have hA : ∀ g0, V2 btp t0 t1 k0 a0 b0 k1 a1 b1 g0 (b1 + 1) = e g0 := by
+    intro g0
+    simp only [V2, vertexValue, s1.2, e, fbl, fl]
+    ring
+  have hB : ∀ g0, V2 btp t0 t1 k0 a0 b0 (k1 + 1) b1 c1 g0 (b1 + 1) = e g0 := by
+    intro g0
+    simp only [V2, vertexValue, hst, lowVertex, Bool.false_eq_true, if_false, s2.1, e, fbl, fl]
+    ring
+  constructor
+  · rw [C16_bilinear_bounds_reconstitution t0 t1 n0 n1 btp hinc0 hinc1 hn0 hn1 k0 a0 b0 ha0 hb0 hg0
+      k1 a1 b1 ha1 hb1 hg1 p0 h0 h0' b1 hv1 (Nat.le_refl _)]
+    simp only [cellVertices, hA]
+    exact ⟨_, _, rfl⟩
+  · rw [C16_bilinear_bounds_reconstitution t0 t1 n0 n1 btp hinc0 hinc1 hn0 hn1 k0 a0 b0 ha0 hb0 hg0
+      (k1 + 1) b1 c1 hb1 hc1 hg1' p0 h0 h0' (b1 + 1) (by rw [hst]; simp [lowVertex]) (by omega)]
+    simp only [cellVertices, hB]
+    exact ⟨_, _, rfl⟩
+
+/-- … and **along the first subsampled dimension**: the last row of cells of subarea row `k0`
+and the first row of subarea row `k0 + 1` share their common edge (bounds 3, 2 of the former
+are bounds 0, 1 of the latter), which lies between the bounds tie points `(k0 + 1, k1)`,
+`(k0 + 1, k1 + 1)`. -/
+theorem C16_bilinear_bounds_contiguous_0 (t0 t1 : List Nat) (n0 n1 : Nat) (btp : List (List Rat))
+    (hinc0 : t0.Pairwise (· < ·)) (hinc1 : t1.Pairwise (· < ·))
+    (hn0 : ∀ x ∈ t0, x < n0) (hn1 : ∀ x ∈ t1, x < n1)
+    (k0 a0 b0 c0 : Nat) (ha0 : t0[k0]? = some a0) (hb0 : t0[k0 + 1]? = some b0)
+    (hc0 : t0[k0 + 2]? = some c0) (hg0 : a0 + 2 ≤ b0) (hg0' : b0 + 2 ≤ c0)
+    (k1 a1 b1 : Nat) (ha1 : t1[k1]? = some a1) (hb1 : t1[k1 + 1]? = some b1) (hg1 : a1 + 2 ≤ b1)
+    (p1 : Nat) (h1 : lowVertex (areaStart t1 k1) a1 ≤ p1) (h1' : p1 ≤ b1) :
+    let e := fun g1 => fl (get2 btp (k0 + 1) k1) (get2 btp (k0 + 1) (k1 + 1))
+      (sParam (lowVertex (areaStart t1 k1) a1) (b1 + 1) g1)
+    (∃ x w, ((recon2b n0 n1 t0 t1 btp)[b0]?.bind (·[p1]?)) = some (some [x, w, e (p1 + 1), e p1])) ∧
+    (∃ y z, ((recon2b n0 n1 t0 t1 btp)[b0 + 1]?.bind (·[p1]?)) = some (some [e p1, e (p1 + 1), y, z])) := by
+  intro e
+  have hst := areaStart_after_gap t0 k0 a0 b0 ha0 hb0 hg0
+  have hv0 : lowVertex (areaStart t0 k0) a0 ≤ b0 := by simp only [lowVertex]; split <;> omega
+  have s1 := sParam_ends (lowVertex (areaStart t0 k0) a0) (b0 + 1) (by omega)
+  have s2 := sParam_ends (b0 + 1) (c0 + 1) (by omega)
+  have hA : ∀ g1, V2 btp t0 t1 k0 a0 b0 k1 a1 b1 (b0 + 1) g1 = e g1 := by
+    intro g1
+    simp only [V2, vertexValue, s1.2, e, fbl, fl]
+    ring
+  have hB : ∀ g1, V2 btp t0 t1 (k0 + 1) b0 c0 k1 a1 b1 (b0 + 1) g1 = e g1 := by
+    intro g1
+    simp only [V2, vertexValue, hst, lowVertex, Bool.false_eq_true, if_false, s2.1, e, fbl, fl]
+    ring
+  constructor
+  · rw [C16_bilinear_bounds_reconstitution t0 t1 n0 n1 btp hinc0 hinc1 hn0 hn1 k0 a0 b0 ha0 hb0 hg0
+      k1 a1 b1 ha1 hb1 hg1 b0 hv0 (Nat.le_refl _) p1 h1 h1']
+    simp only [cellVertices, hA]
+    exact ⟨_, _, rfl⟩
+  · rw [C16_bilinear_bounds_reconstitution t0 t1 n0 n1 btp hinc0 hinc1 hn0 hn1 (k0 + 1) b0 c0 hb0 hc0 hg0'
+      k1 a1 b1 ha1 hb1 hg1 (b0 + 1) (by rw [hst]; simp [lowVertex]) (by omega) p1 h1 h1']
+    simp only [cellVertices, hB]
+    exact ⟨_, _, rfl⟩
+
+example : ([0, 2, 4] : List Nat)[0 + 2]? = some 4 := by decide
+
 /-! ### the first / last element shortcut -/
 
 /-- `_first_or_last_element` is sound for one subsampled dimension: the last tie point is
@@ -359,5 +570,709 @@ theorem C16_last_shortcut_1d (F : Method) (hF : Endpoints F) (t : List Nat) (n :
 theorem C16_old_last_shortcut_counterexample :
     lastOf2b (recon2b 3 3 [0, 2] [0, 2] [[0, 1], [2, 4]]) = some (10 / 3) ∧
     lastShortcut2 [[0, 1], [2, 4]] = 4 := by decide +kernel
+
+/-! ### `__getitem__`: the first/last element shortcut and subspaces -/
+
+theorem head_eq_getElem_zero {α} (l : List α) : l.head? = l[0]? := by cases l <;> rfl
+
+/-- **`SubsampledArray.__getitem__` = subspace of the reconstituted array, coordinates, one
+subsampled dimension.**  For every well-formed tie point index vector that starts at 0 and ends
+at `n - 1` and EVERY index (slice with any start/stop/step, integer list), what `__getitem__`
+returns — through the first/last element shortcut, which never uncompresses, or through the
+general path — is the orthogonal subspace of the reconstituted array. -/
+theorem C16_getitem_1d (F : Method) (hF : Endpoints F) (t : List Nat) (n : Nat) (tp : List Rat)
+    (hwf : wfAreas true t = true) (hn : ∀ x ∈ t, x < n) (hlen : tp.length = t.length)
+    (h0 : t.head? = some 0) (hl : t.getLast? = some (n - 1)) (ix : Sel) :
+    getitem1 F n t tp ix = sub1 none (recon1 F n t tp) n ix := by
+  have hpos : 0 < n := by
+    cases t with
+    | nil => simp at h0
+    | cons a t => have := hn a (by simp); omega
+  unfold getitem1
+  split
+  · rename_i h
+    rw [(allFirst_one ix).mp h, sub1, firstSel_positions n hpos]
+    have := C16_tie_exact F hF t n tp hwf hn 0 0 (by rw [← head_eq_getElem_zero]; exact h0)
+    have e := gather_single (none : Option Rat) (recon1 F n t tp) 0 _ this
+    simp only [Nat.cast_zero] at e
+    rw [e, firstShortcut1, head_eq_getElem_zero, List.getD_eq_getElem?_getD]
+  · split
+    · rename_i h
+      rw [(allLast_one ix).mp h, sub1, lastSel_positions n hpos]
+      have := C16_last_shortcut_1d F hF t n tp hwf hn hlen hl
+      rw [gather_single (none : Option Rat) (recon1 F n t tp) (n - 1) _ this]
+    · rfl
+
+example : getitem1 linearM 12 [0, 4, 7, 8, 11] [15, 135, 225, 255, 345] lastSel = [some 345] := by
+  decide +kernel
+example : getitem1 linearM 12 [0, 4, 7, 8, 11] [15, 135, 225, 255, 345] (.slice (some 9) none (some (-3))) =
+    [some 285, some 195, some 105, some 15] := by decide +kernel
+
+/-- The hypothesis "the first tie point index is 0" cannot be dropped: cfdm (and the model)
+return the first tie point for `[0:1:1]` although element 0 of the array is masked. -/
+theorem C16_getitem_first_needs_index_zero :
+    getitem1 linearM 6 [1, 5] [10, 50] firstSel = [some 10] ∧
+    sub1 none (recon1 linearM 6 [1, 5] [10, 50]) 6 firstSel = [none] := by decide +kernel
+
+/-- **Every element of every subspace is the Appendix J value at the selected position**
+(coordinates, one subsampled dimension): if the `i`-th selected position of the index is `p`
+and `p` lies between the tie point indices `a`, `b` of a tie point pair that is not an area
+boundary, element `i` of `x[ix]` is the method's value at `s(a, b, p)`. -/
+theorem C16_subspace_1d (F : Method) (hF : Endpoints F) (t : List Nat) (n : Nat) (tp : List Rat)
+    (hwf : wfAreas true t = true) (hn : ∀ x ∈ t, x < n) (hlen : tp.length = t.length)
+    (h0 : t.head? = some 0) (hl : t.getLast? = some (n - 1)) (ix : Sel)
+    (i p : Nat) (hi : (ix.positions n)[i]? = some (p : Int))
+    (k a b : Nat) (ha : t[k]? = some a) (hb : t[k + 1]? = some b) (hgap : a + 2 ≤ b)
+    (hap : a ≤ p) (hpb : p ≤ b) :
+    (getitem1 F n t tp ix)[i]? =
+      some (some (F (subareaIndex t k) (tp.getD k 0) (tp.getD (k + 1) 0) (sParam a b p))) := by
+  rw [C16_getitem_1d F hF t n tp hwf hn hlen h0 hl ix]
+  have := C16_reconstitution F hF t n tp (wfAreas_pairwise t true hwf) hn k a b ha hb hgap p hap hpb
+  simp only [sub1, gather, List.getElem?_map, hi, Option.map_some, Int.toNat_natCast,
+    List.getD_eq_getElem?_getD, this, Option.getD_some]
+
+example : (Sel.slice (some 9) none (some (-3))).positions 12 = [9, 6, 3, 0] := by decide +kernel
+
+/-- **`__getitem__` on bounds, one subsampled dimension** (array of shape `(n, 2)`): the
+shortcut returns the first / last bounds tie point, which is the first bound of the first
+cell / the second bound of the last cell; every other index takes the general path. -/
+theorem C16_getitem_1d_bounds (F : Method) (hF : Endpoints F) (t : List Nat) (n : Nat) (btp : List Rat)
+    (hwf : wfAreas true t = true) (hn : ∀ x ∈ t, x < n) (hlen : btp.length = t.length)
+    (h0 : t.head? = some 0) (hl : t.getLast? = some (n - 1)) (ix ixb : Sel) :
+    getitem1b F n t btp ix ixb =
+      (sub1 none (recon1b F n t btp) n ix).map (fun c => gather none (cellList 2 c) (ixb.positions 2)) := by
+  have hinc := wfAreas_pairwise t true hwf
+  have hpos : 0 < n := by
+    cases t with
+    | nil => simp at h0
+    | cons a t => have := hn a (by simp); omega
+  have ht0 : t[0]? = some 0 := by rw [← head_eq_getElem_zero]; exact h0
+  unfold getitem1b
+  split
+  · rename_i h
+    obtain ⟨h1, h2⟩ := (allFirst_two ix ixb).mp h
+    obtain ⟨b, hb, hab⟩ := wfAreas_first_gap t hwf 0 ht0
+    have hst : areaStart t 0 = true := rfl
+    have := C16_bounds_reconstitution F t n btp hinc hn 0 0 b ht0 hb hab 0
+      (by rw [hst]; simp [lowVertex]) (by omega)
+    rw [hst] at this
+    simp only [lowVertex, if_true, sParam, Nat.cast_zero, sub_self, zero_div, hF.1] at this
+    rw [h1, h2, sub1, firstSel_positions n hpos, firstSel_positions 2 (by omega)]
+    have e := gather_single (none : Option (List Rat)) (recon1b F n t btp) 0 _ this
+    simp only [Nat.cast_zero] at e
+    rw [e]
+    simp [cellList, gather, firstShortcut1, head_eq_getElem_zero, List.getD_eq_getElem?_getD]
+  · split
+    · rename_i h
+      obtain ⟨h1, h2⟩ := (allLast_two ix ixb).mp h
+      have hk : t[t.length - 1]? = some (n - 1) := by rw [← hl, List.getLast?_eq_getElem?]
+      obtain ⟨k, a, hk2, hka, hal⟩ := wfAreas_last_gap t hwf (n - 1) hk
+      have hkb : t[k + 1]? = some (n - 1) := by rw [← hk]; congr 1; omega
+      have hlv : lowVertex (areaStart t k) a ≤ n - 1 := by simp only [lowVertex]; split <;> omega
+      have := C16_bounds_reconstitution F t n btp hinc hn k a (n - 1) hka hkb hal (n - 1) hlv (Nat.le_refl _)
+      have e1 : sParam (lowVertex (areaStart t k) a) (n - 1 + 1) (n - 1 + 1) = 1 :=
+        (sParam_ends _ _ (by omega)).2
+      rw [e1, hF.2] at this
+      rw [h1, h2, sub1, lastSel_positions n hpos, lastSel_positions 2 (by omega),
+        gather_single (none : Option (List Rat)) (recon1b F n t btp) (n - 1) _ this]
+      simp only [List.map_cons, List.map_nil, cellList, gather, lastShortcut1,
+        List.getLast?_eq_getElem?, hlen]
+      simp [List.getD_eq_getElem?_getD, show t.length - 1 = k + 1 by omega]
+    · rfl
+
+example : getitem1b linearM 12 [0, 4, 7, 8, 11] [0, 150, 240, 240, 360] lastSel lastSel = [[some 360]] := by
+  decide +kernel
+example : getitem1b linearM 12 [0, 4, 7, 8, 11] [0, 150, 240, 240, 360] (.list [5, -1]) (.slice none none (some (-1))) =
+    [[some 180, some 150], [some 360, some 330]] := by decide +kernel
+
+/-- **`__getitem__`, coordinates, two subsampled dimensions**: the shortcut (first / last tie
+point of the 2-d tie point array) is the corner element of the reconstituted array. -/
+theorem C16_getitem_2d (t0 t1 : List Nat) (n0 n1 : Nat) (tp : List (List Rat))
+    (hwf0 : wfAreas true t0 = true) (hwf1 : wfAreas true t1 = true)
+    (hn0 : ∀ x ∈ t0, x < n0) (hn1 : ∀ x ∈ t1, x < n1)
+    (hlen0 : tp.length = t0.length) (hlen1 : ∀ row ∈ tp, row.length = t1.length)
+    (h00 : t0.head? = some 0) (hl0 : t0.getLast? = some (n0 - 1))
+    (h01 : t1.head? = some 0) (hl1 : t1.getLast? = some (n1 - 1)) (ix0 ix1 : Sel) :
+    getitem2 n0 n1 t0 t1 tp ix0 ix1 = sub2 none (recon2 n0 n1 t0 t1 tp) n0 n1 ix0 ix1 := by
+  have hinc0 := wfAreas_pairwise t0 true hwf0
+  have hinc1 := wfAreas_pairwise t1 true hwf1
+  have hpos0 : 0 < n0 := by
+    cases t0 with
+    | nil => simp at h00
+    | cons a t => have := hn0 a (by simp); omega
+  have hpos1 : 0 < n1 := by
+    cases t1 with
+    | nil => simp at h01
+    | cons a t => have := hn1 a (by simp); omega
+  have ht00 : t0[0]? = some 0 := by rw [← head_eq_getElem_zero]; exact h00
+  have ht01 : t1[0]? = some 0 := by rw [← head_eq_getElem_zero]; exact h01
+  unfold getitem2
+  split
+  · rename_i h
+    obtain ⟨e0, e1⟩ := (allFirst_two ix0 ix1).mp h
+    obtain ⟨b0, hb0, hab0⟩ := wfAreas_first_gap t0 hwf0 0 ht00
+    obtain ⟨b1, hb1, hab1⟩ := wfAreas_first_gap t1 hwf1 0 ht01
+    have c := (C16_bilinear_corners t0 t1 n0 n1 tp hinc0 hinc1 hn0 hn1 0 0 b0 ht00 hb0 hab0
+      0 0 b1 ht01 hb1 hab1).1
+    rw [e0, e1, sub2, firstSel_positions n0 hpos0, firstSel_positions n1 hpos1]
+    cases hr : (recon2 n0 n1 t0 t1 tp)[0]? with
+    | none => rw [hr] at c; simp at c
+    | some row =>
+      rw [hr, Option.bind_some] at c
+      have e := gather_single ([] : List (Option Rat)) (recon2 n0 n1 t0 t1 tp) 0 row hr
+      have e' := gather_single (none : Option Rat) row 0 _ c
+      simp only [Nat.cast_zero] at e e'
+      rw [e, List.map_cons, List.map_nil, e']
+      simp [firstShortcut2, get2, head_eq_getElem_zero, List.getD_eq_getElem?_getD]
+  · split
+    · rename_i h
+      obtain ⟨e0, e1⟩ := (allLast_two ix0 ix1).mp h
+      have hk0 : t0[t0.length - 1]? = some (n0 - 1) := by rw [← hl0, List.getLast?_eq_getElem?]
+      have hk1 : t1[t1.length - 1]? = some (n1 - 1) := by rw [← hl1, List.getLast?_eq_getElem?]
+      obtain ⟨k0, a0, hk02, hka0, hal0⟩ := wfAreas_last_gap t0 hwf0 (n0 - 1) hk0
+      obtain ⟨k1, a1, hk12, hka1, hal1⟩ := wfAreas_last_gap t1 hwf1 (n1 - 1) hk1
+      have hkb0 : t0[k0 + 1]? = some (n0 - 1) := by rw [← hk0]; congr 1; omega
+      have hkb1 : t1[k1 + 1]? = some (n1 - 1) := by rw [← hk1]; congr 1; omega
+      have c := (C16_bilinear_corners t0 t1 n0 n1 tp hinc0 hinc1 hn0 hn1 k0 a0 (n0 - 1) hka0 hkb0 hal0
+        k1 a1 (n1 - 1) hka1 hkb1 hal1).2.2.2
+      rw [e0, e1, sub2, lastSel_positions n0 hpos0, lastSel_positions n1 hpos1]
+      cases hr : (recon2 n0 n1 t0 t1 tp)[n0 - 1]? with
+      | none => rw [hr] at c; simp at c
+      | some row =>
+        rw [hr, Option.bind_some] at c
+        rw [gather_single ([] : List (Option Rat)) (recon2 n0 n1 t0 t1 tp) (n0 - 1) row hr,
+          List.map_cons, List.map_nil, gather_single (none : Option Rat) row (n1 - 1) _ c]
+        have hrow : ∀ r, tp[k0 + 1]? = some r → r.length = t1.length :=
+          fun r hr => hlen1 r (List.mem_of_getElem? hr)
+        simp only [lastShortcut2, get2, List.getLast?_eq_getElem?, hlen0,
+          show t0.length - 1 = k0 + 1 by omega, List.getD_eq_getElem?_getD]
+        cases hq : tp[k0 + 1]? with
+        | none => simp
+        | some r =>
+          simp only [Option.getD_some, hrow r hq, show t1.length - 1 = k1 + 1 by omega]
+    · rfl
+
+example : getitem2 6 7 [0, 2, 3, 5] [0, 3, 6] [[0, 1, 2], [3, 4, 5], [6, 7, 8], [9, 10, 11]] lastSel lastSel =
+    [[some 11]] := by decide +kernel
+
+/-- **Bounds over two subsampled dimensions take no shortcut** (`getitem2b` is the general path by
+definition); with the shortcut of the code before /repo commit d99716a `last_element()` was the
+last bounds tie point instead of bound 3 of the last cell. -/
+theorem C16_old_getitem_2d_bounds_counterexample :
+    getitem2bOld 3 3 [0, 2] [0, 2] [[0, 1], [2, 4]] lastSel lastSel lastSel = [[[some 4]]] ∧
+    getitem2b 3 3 [0, 2] [0, 2] [[0, 1], [2, 4]] lastSel lastSel lastSel = [[[some (10 / 3)]]] := by
+  decide +kernel
+
+/-! ### interpolation parameters stored in their own dimension order -/
+
+/-- **`_conformed_parameters` = "index the stored array in its own dimension order".**  For a
+parameter whose dimensions correspond to the distinct tie point dimensions `pdims` (in ANY order,
+spanning ANY subset of the `D` tie point dimensions), the conformed array — transposed to tie
+point dimension order, the dimensions it does not span inserted as size 1 axes, lowest first —
+has one axis per tie point dimension (the parameter's own size where it spans the dimension,
+else 1), and its element at the tie point multi-index `idx` is the stored element whose index
+along the parameter's `q`-th dimension is `idx[pdims[q]]`. -/
+theorem C16_conform_parameter {α} (D : Nat) (pdims : List Nat) (P : Arr α) (hnd : pdims.Nodup)
+    (hlt : ∀ d ∈ pdims, d < D) (hP : P.shape.length = pdims.length) :
+    (conform D pdims P).shape =
+      (List.range D).map (fun d => if pdims.contains d then P.shape.getD (pdims.idxOf d) 0 else 1) ∧
+    ∀ idx : List Nat, idx.length = D →
+      (conform D pdims P).get idx = P.get (pdims.map (fun d => idx.getD d 0)) :=
+  ⟨conform_shape D pdims P hnd hlt hP, fun idx hidx => conform_get D pdims P hnd hlt hP idx hidx⟩
+
+/-- `w(subarea, x)` for tie points `(x, tp)`: `parameter_dimensions = (1, 0)` -/
+example : (conform 2 [1, 0] (ofFlat [2, 3] [1, 2, 3, 4, 5, 6])).shape = [3, 2] ∧
+    (conform 2 [1, 0] (ofFlat [2, 3] [1, 2, 3, 4, 5, 6])).get [2, 1] = 6 ∧
+    (conform 2 [1, 0] (ofFlat [2, 3] [1, 2, 3, 4, 5, 6])).get [0, 1] = 4 := by decide +kernel
+/-- `w(subarea)` for tie points `(x, tp, y)`: two inserted axes -/
+example : (conform 3 [1] (ofFlat [2] [7, 9])).shape = [1, 2, 1] ∧
+    (conform 3 [1] (ofFlat [2] [7, 9])).get [0, 1, 0] = 9 := by decide +kernel
+
+/-- The test before /repo commit c954b8c (`sorted(parameter_dims) == dims`) left a parameter
+stored in another dimension order untransposed. -/
+theorem C16_old_conform_counterexample :
+    (conformOld 2 [1, 0] (ofFlat [2, 2] [1, 2, 3, 4])).get [0, 1] = 2 ∧
+    (conform 2 [1, 0] (ofFlat [2, 2] [1, 2, 3, 4])).get [0, 1] = 3 ∧
+    (ofFlat [2, 2] [1, 2, 3, 4]).get ([1, 0].map (fun d => [0, 1].getD d 0)) = 3 := by decide +kernel
+
+/-- **The coefficient of interpolation subarea `j` in row `e` is the value stored at the
+parameter's own index order** (`_conformed_parameters` + `_select_parameter`, one subsampled
+dimension at position `d1` of the tie point array): for a parameter whose `q`-th dimension is the
+interpolation subarea dimension (size `nsub`) if `pdims[q] = d1` and otherwise the non-interpolated
+tie point dimension `pdims[q]`, the list of coefficients that `QuadraticSubarray` receives for the
+row with indices `e` along the non-interpolated dimensions is
+`[P[q ↦ if pdims[q] = d1 then j else e[pdims[q]]] | j < nsub]`.
+
+`bcast = false` is /repo HEAD, which needs the parameter to span the subsampled dimension (or a
+single subarea); `bcast = true` (fixes/C16-parameter-broadcast.patch) needs nothing. -/
+theorem C16_parameter_row (bcast : Bool) (D : Nat) (pdims : List Nat) (P : Arr Rat) (tpShape : List Nat)
+    (d1 nsub : Nat) (e : List Nat)
+    (hnd : pdims.Nodup) (hlt : ∀ d ∈ pdims, d < D) (hP : P.shape.length = pdims.length)
+    (hD : tpShape.length = D)
+    (hshape : ∀ q (hq : q < pdims.length),
+      P.shape.getD q 0 = if pdims[q] = d1 then nsub else tpShape.getD pdims[q] 0)
+    (hns : nsub ≠ tpShape.getD d1 0)
+    (hb : bcast = true ∨ d1 ∈ pdims ∨ nsub ≤ 1) :
+    paramRow bcast D pdims P tpShape d1 nsub e =
+      some ((List.range nsub).map (fun j =>
+        P.get (pdims.map (fun d => if d = d1 then j else e.getD d 0)))) :=
+  paramRow_eq bcast D pdims P tpShape d1 nsub e hnd hlt hP hD hshape hns hb
+
+/-- tie points `(x=2, tp=3)`, two subareas, `w(subarea, x)`, row `x = 1` -/
+example : paramRow false 2 [1, 0] (ofFlat [2, 2] [1, 2, 3, 4]) [2, 3] 1 2 [1, 0] = some [2, 4] := by
+  decide +kernel
+
+/-- The hypothesis of `C16_parameter_row` for /repo HEAD cannot be dropped: a parameter that does
+not span the subsampled dimension (here a scalar `w`, two subareas) is indexed with `slice(1, 2)`
+on its size 1 axis for the second subarea — an empty selection (cfdm then raises ValueError when
+broadcasting); with the proposed patch the single value is used for every subarea. -/
+theorem C16_parameter_broadcast_counterexample :
+    paramRow false 1 [] (ofFlat [] [5]) [3] 0 2 [0] = none ∧
+    paramRow true 1 [] (ofFlat [] [5]) [3] 0 2 [0] = some [5, 5] := by decide +kernel
+
+/-- `interpolation_subarea_flags` at /repo HEAD are taken as stored, not conformed: for tie points
+`(x = 2, tp = 3)` and flags stored per subarea only (`parameter_dimensions = (1,)`) the stored array
+has rank 1 while `_select_parameter` indexes it with the two indices of the tie point rank (numpy:
+IndexError); the conformed array (proposed patch: the flags are derived from the conformed
+parameter) has the tie point rank and the row-independent values. -/
+theorem C16_old_flags_not_conformed_counterexample :
+    (ofFlat [2] [1, 0]).shape.length = 1 ∧
+    (conform 2 [1] (ofFlat [2] [1, 0])).shape = [1, 2] ∧
+    paramRow true 2 [1] (ofFlat [2] [1, 0]) [2, 3] 1 2 [1, 0] = some [1, 0] := by decide +kernel
+
+/-- **Quadratic reconstitution with the coefficient taken from the stored parameter**: the
+element at target index `p` between tie points `k`, `k + 1` of row `e` is Appendix J's `fq` with
+`w = P[own index order]` of that row and that interpolation subarea. -/
+theorem C16_quadratic_stored_parameter (bcast : Bool) (D : Nat) (pdims : List Nat) (P : Arr Rat)
+    (tpShape : List Nat) (d1 : Nat) (e : List Nat)
+    (hnd : pdims.Nodup) (hlt : ∀ d ∈ pdims, d < D) (hP : P.shape.length = pdims.length)
+    (hD : tpShape.length = D) (t : List Nat) (n : Nat) (tp : List Rat)
+    (hshape : ∀ q (hq : q < pdims.length),
+      P.shape.getD q 0 = if pdims[q] = d1 then (subs t).length else tpShape.getD pdims[q] 0)
+    (hns : (subs t).length ≠ tpShape.getD d1 0)
+    (hb : bcast = true ∨ d1 ∈ pdims ∨ (subs t).length ≤ 1)
+    (hinc : t.Pairwise (· < ·)) (hn : ∀ x ∈ t, x < n)
+    (k a b : Nat) (ha : t[k]? = some a) (hb' : t[k + 1]? = some b) (hgap : a + 2 ≤ b)
+    (hk : subareaIndex t k < (subs t).length)
+    (p : Nat) (hap : a ≤ p) (hpb : p ≤ b) :
+    (recon1 (quadraticM (paramRow bcast D pdims P tpShape d1 (subs t).length e)) n t tp)[p]? =
+      some (some (fq (tp.getD k 0) (tp.getD (k + 1) 0)
+        (P.get (pdims.map (fun d => if d = d1 then subareaIndex t k else e.getD d 0)))
+        (sParam a b p))) := by
+  rw [C16_parameter_row bcast D pdims P tpShape d1 _ e hnd hlt hP hD hshape hns hb,
+    C16_quadratic _ t n tp hinc hn k a b ha hb' hgap p hap hpb]
+  simp [List.getD_eq_getElem?_getD, List.getElem?_map, List.getElem?_range hk]
+
+example : (subs [0, 4, 7, 8, 11]).length = 3 ∧ subareaIndex [0, 4, 7, 8, 11] 3 = 2 := by decide
+
+/-! ### the netCDF reader's bookkeeping -/
+
+/-- **`tie_point_mapping` (and `interpolation_parameters`) parse back**: for every list of
+groups `key: value value …` with at least one value each, `_parse_x` of the attribute text
+returns exactly the groups, in order. -/
+theorem C16_parse_mapping_roundtrip (gs : List (String × List String)) (hv : ∀ g ∈ gs, g.2 ≠ []) :
+    parseX (renderGroups gs) = gs := by
+  have h := parseGroupsGo_render gs hv none [] (by intro g hg; cases hg)
+  have hp : parseGroups (renderGroups gs) = some gs := by simpa [parseGroups, closeCur] using h
+  cases gs with
+  | nil => rfl
+  | cons g gs =>
+    have : ∀ w, renderGroups (g :: gs) ≠ [Tok.word w] := by
+      intro w h0
+      simp [renderGroups] at h0
+    unfold parseX
+    split
+    · rename_i w hw
+      exact absurd hw (this w)
+    · rw [hp]; rfl
+
+example : parseX [.key "u0", .word "idx0", .word "tp0", .word "sa0", .key "u1", .word "idx1", .word "tp1"] =
+    [("u0", ["idx0", "tp0", "sa0"]), ("u1", ["idx1", "tp1"])] := by decide
+/-- a key without values, a value before any key: no match -/
+example : parseX [.key "u0", .key "u1", .word "a"] = [] ∧ parseX [.word "a", .key "u0", .word "b"] = [] := by
+  decide
+example : parseX [.word "w"] = [("w", [])] := by decide
+
+/-- **`coordinate_interpolation` parses back** to `{interpolation variable: tie point coordinate
+variables}` for distinct interpolation variables. -/
+theorem C16_coordinate_interpolation_roundtrip (gs : List (String × List String))
+    (hnd : (gs.map (·.1)).Nodup) : coordInterp (renderCI gs) = gs := by
+  have := coordInterpGo_render gs [] hnd (by intro g _ x hx; simp at hx)
+  simpa [coordInterp] using this
+
+example : coordInterp [.coord "lat", .coord "lon", .interp "bl", .coord "time", .interp "lin"] =
+    [("bl", ["lat", "lon"]), ("lin", ["time"])] := by decide
+
+/-- Specification of `parameter_dimensions`: tie point dimension position `i` corresponds to the
+parameter dimension `x` when it is that dimension, or the subsampled dimension of which `x` is the
+interpolation subarea dimension. -/
+def Corresponds (rec : List SubDim) (dimensions : List String) (x : String) (i : Nat) : Prop :=
+  dimensions[i]? = some x ∨
+    (x ∉ dimensions ∧ ∃ s ∈ rec, s.subarea = some x ∧ dimensions[i]? = some s.subsampled)
+
+theorem paramPosition_spec (rec : List SubDim) (dimensions : List String) (x : String)
+    (hrec : ∀ s ∈ rec, s.subsampled ∈ dimensions)
+    (hx : x ∈ dimensions ∨ ∃ s ∈ rec, s.subarea = some x) :
+    ∃ i, paramPosition rec dimensions x = some i ∧ i < dimensions.length ∧ Corresponds rec dimensions x i := by
+  unfold paramPosition
+  by_cases hc : x ∈ dimensions
+  · have hcb : dimensions.contains x = true := by simpa using hc
+    refine ⟨_, by rw [if_pos hcb], List.idxOf_lt_length_of_mem hc, Or.inl ?_⟩
+    rw [List.getElem?_eq_getElem (List.idxOf_lt_length_of_mem hc), List.getElem_idxOf]
+  · have hcb : ¬ dimensions.contains x = true := by simpa using hc
+    rcases hx with hx | ⟨s, hs, hsx⟩
+    · exact absurd hx hc
+    · have hsome : (rec.find? (fun s => s.subarea == some x)).isSome := by
+        rw [List.find?_isSome]
+        exact ⟨s, hs, by simp [hsx]⟩
+      obtain ⟨s', hs'⟩ := Option.isSome_iff_exists.mp hsome
+      have hmem : s' ∈ rec := List.mem_of_find?_eq_some hs'
+      have hsub : s'.subarea = some x := by simpa using List.find?_some hs'
+      have hin := hrec s' hmem
+      refine ⟨_, by rw [if_neg hcb, hs'], List.idxOf_lt_length_of_mem hin, Or.inr ⟨hc, s', hmem, hsub, ?_⟩⟩
+      rw [List.getElem?_eq_getElem (List.idxOf_lt_length_of_mem hin), List.getElem_idxOf]
+
+/-- **`parameter_dimensions` as read from a dataset keep the parameter's own dimension order**:
+if every dimension of the interpolation parameter variable is a dimension of the tie point
+variable or the interpolation subarea dimension of one of its subsampled dimensions, the
+reader records exactly one position per parameter dimension, in the parameter variable's own
+dimension order, each a valid tie point dimension position that `Corresponds` to it. -/
+theorem C16_read_parameter_dimensions (rec : List SubDim) (dimensions paramDims : List String)
+    (hrec : ∀ s ∈ rec, s.subsampled ∈ dimensions)
+    (hall : ∀ x ∈ paramDims, x ∈ dimensions ∨ ∃ s ∈ rec, s.subarea = some x) :
+    (readParameterDimensions rec dimensions paramDims).length = paramDims.length ∧
+    (∀ i ∈ readParameterDimensions rec dimensions paramDims, i < dimensions.length) ∧
+    ∀ (q : Nat) (x : String), paramDims[q]? = some x →
+      ∃ i, (readParameterDimensions rec dimensions paramDims)[q]? = some i ∧
+        Corresponds rec dimensions x i := by
+  have hmap : readParameterDimensions rec dimensions paramDims =
+      paramDims.map (fun x => (paramPosition rec dimensions x).getD 0) := by
+    unfold readParameterDimensions
+    induction paramDims with
+    | nil => rfl
+    | cons x l ih =>
+      obtain ⟨i, hi, _, _⟩ := paramPosition_spec rec dimensions x hrec (hall x (by simp))
+      rw [List.filterMap_cons, hi, List.map_cons, hi, ih (fun y hy => hall y (by simp [hy]))]
+      rfl
+  refine ⟨by rw [hmap]; simp, ?_, ?_⟩
+  · intro i hi
+    rw [hmap, List.mem_map] at hi
+    obtain ⟨x, hx, rfl⟩ := hi
+    obtain ⟨i, hi, hlt, _⟩ := paramPosition_spec rec dimensions x hrec (hall x hx)
+    rw [hi]; exact hlt
+  · intro q x hq
+    obtain ⟨i, hi, _, hc⟩ := paramPosition_spec rec dimensions x hrec (hall x (List.mem_of_getElem? hq))
+    exact ⟨i, by rw [hmap, List.getElem?_map, hq, Option.map_some, hi]; rfl, hc⟩
+
+/-- tie points `c(x0, tp0)`, `tie_point_mapping = "u0: idx0 tp0 sa0"`, parameter `w(sa0, x0)` -/
+example : readParameterDimensions
+    (subsampledRecord [("u0", ["idx0", "tp0", "sa0"])]) ["x0", "tp0"] ["sa0", "x0"] = [1, 0] := by decide
+
+/-- … and the positions are pairwise distinct (what `_conformed_parameters` needs) when the
+parameter variable's dimensions are distinct and it does not span both a subsampled dimension
+and that dimension's interpolation subarea dimension. -/
+theorem C16_read_parameter_dimensions_nodup (rec : List SubDim) (dimensions paramDims : List String)
+    (hrec : ∀ s ∈ rec, s.subsampled ∈ dimensions)
+    (hall : ∀ x ∈ paramDims, x ∈ dimensions ∨ ∃ s ∈ rec, s.subarea = some x)
+    (hp : paramDims.Nodup)
+    (hkeys : ∀ a ∈ rec, ∀ b ∈ rec, a.subsampled = b.subsampled → a = b)
+    (hboth : ∀ s ∈ rec, ∀ x, s.subarea = some x → x ∈ paramDims → s.subsampled ∉ paramDims) :
+    (readParameterDimensions rec dimensions paramDims).Nodup := by
+  have hmap : readParameterDimensions rec dimensions paramDims =
+      paramDims.map (fun x => (paramPosition rec dimensions x).getD 0) := by
+    unfold readParameterDimensions
+    induction paramDims with
+    | nil => rfl
+    | cons x l ih =>
+      obtain ⟨i, hi, _, _⟩ := paramPosition_spec rec dimensions x hrec (hall x (by simp))
+      rw [List.filterMap_cons, hi, List.map_cons, hi,
+        ih (fun y hy => hall y (by simp [hy])) (List.nodup_cons.mp hp).2
+          (fun s hs x hx hxl => fun h => hboth s hs x hx (by simp [hxl]) (by simp [h]))]
+      rfl
+  rw [hmap]
+  apply List.Nodup.map_on _ hp
+  intro x hx y hy hxy
+  obtain ⟨i, hi, hil, hci⟩ := paramPosition_spec rec dimensions x hrec (hall x hx)
+  obtain ⟨j, hj, hjl, hcj⟩ := paramPosition_spec rec dimensions y hrec (hall y hy)
+  simp only [hi, hj, Option.getD_some] at hxy
+  subst hxy
+  rcases hci with h1 | ⟨hxn, s, hs, hsx, h1⟩ <;> rcases hcj with h2 | ⟨hyn, s', hs', hsy, h2⟩
+  · rw [h1] at h2; exact Option.some.inj h2
+  · rw [h1] at h2
+    have : x = s'.subsampled := Option.some.inj h2
+    exact absurd (this ▸ hx) (hboth s' hs' y hsy hy)
+  · rw [h1] at h2
+    have : s.subsampled = y := Option.some.inj h2
+    exact absurd (this ▸ hy) (hboth s hs x hsx hx)
+  · rw [h1] at h2
+    have hss : s = s' := hkeys s hs s' hs' (Option.some.inj h2)
+    subst hss
+    rw [hsx] at hsy
+    exact Option.some.inj hsy
+
+/-- **Tie point indices as read**: position `i` of the tie point variable's dimensions gets the
+tie point index variable `v` exactly when that dimension is a subsampled dimension of the
+`tie_point_mapping` whose index variable is `v`. -/
+theorem C16_read_tie_point_indices (rec : List SubDim) (dimensions : List String) (i : Nat) (v : String) :
+    (i, v) ∈ readTiePointIndices rec dimensions ↔
+      ∃ d s, dimensions[i]? = some d ∧ lookupSub rec d = some s ∧ s.indexVar = v := by
+  unfold readTiePointIndices
+  simp only [List.mem_filterMap, Prod.exists, Option.map_eq_some_iff, Prod.mk.injEq]
+  constructor
+  · rintro ⟨d, i', hmem, s, hs, hi, hv⟩
+    subst hi
+    exact ⟨d, s, by simpa [List.mem_zipIdx_iff_getElem?] using hmem, hs, hv⟩
+  · rintro ⟨d, s, hd, hs, hv⟩
+    exact ⟨d, i, by simpa [List.mem_zipIdx_iff_getElem?] using hd, s, hs, rfl, hv⟩
+
+example : readTiePointIndices (subsampledRecord [("u0", ["idx0", "tp0", "sa0"]), ("u1", ["idx1", "tp1"])])
+    ["tp0", "x0", "tp1"] = [(0, "idx0"), (2, "idx1")] := by decide
+
+/-- **The uncompressed shape as read is the shape of the target domain**: one entry per tie point
+dimension — the size of the interpolated dimension where the dimension is subsampled, else its
+own size — plus, for bounds tie points, a trailing dimension of twice the number of subsampled
+dimensions. -/
+theorem C16_read_shape (rec : List SubDim) (dimensions : List String) (sizes : List (String × Nat))
+    (bounds : Bool) :
+    readShape rec dimensions sizes bounds =
+      dimensions.map (fun d => match lookupSub rec d with
+        | some s => sizeOf sizes s.interpolated
+        | none => sizeOf sizes d) ++
+      (if bounds then [2 * (dimensions.filter (fun d => (lookupSub rec d).isSome)).length] else []) := by
+  unfold readShape uncompressedDims
+  rw [List.map_map]
+  congr 1
+  apply List.map_congr_left
+  intro d _
+  simp only [Function.comp]
+  cases lookupSub rec d <;> rfl
+
+example : readShape (subsampledRecord [("u0", ["idx0", "tp0", "sa0"]), ("u1", ["idx1", "tp1"])])
+    ["tp0", "x0", "tp1"] [("tp0", 3), ("x0", 2), ("tp1", 4), ("u0", 12), ("u1", 20)] true = [12, 2, 20, 4] := by
+  decide
+
+/-! ### quadratic_latitude_longitude and bi_quadratic_latitude_longitude
+
+The algebra of the two methods is modelled exactly; `_fll2v`, `_fv2lat`, `_fv2lon`, `_fsqrt` are
+the uninterpreted fields of `Geo`.  `RoundTrip G latitude tp` says that the tie points survive
+latitude/longitude → unit vector → latitude/longitude (true of the real functions for latitudes
+in [-90, 90] off the poles and longitudes in (-180, 180]). -/
+
+/-- The tie points survive the conversion to a vector and back. -/
+def RoundTrip (G : Geo) (latitude : Bool) (tp : List LL) : Prop :=
+  ∀ i, G.v2ll latitude (G.ll2v (llAt tp i).1 (llAt tp i).2) = pick latitude (llAt tp i)
+
+theorem toyGeo_roundTrip (latitude : Bool) (tp : List LL) : RoundTrip toyGeo latitude tp := by
+  intro i; cases latitude <;> rfl
+
+/-- **Reconstitution, `quadratic_latitude_longitude`.**  For every strictly increasing tie point
+index vector, every tie point pair `k`, `k + 1` that is not an area boundary and every target
+index `p` between their indices, the reconstituted latitude (longitude) is Appendix J's
+`quadratic_latitude_longitude` value at `s(a, b, p)` — interpolation in 3-d cartesian or in
+latitude-longitude coordinates as the subarea's `location_use_3d_cartesian` flag says, with
+that subarea's `ce`, `ca` — computed from the latitude AND longitude tie points `k`, `k + 1`. -/
+theorem C16_qll_reconstitution (G : Geo) (latitude : Bool) (tp : List LL) (P : QParams)
+    (hrt : RoundTrip G latitude tp) (t : List Nat) (n : Nat)
+    (hinc : t.Pairwise (· < ·)) (hn : ∀ x ∈ t, x < n)
+    (k a b : Nat) (ha : t[k]? = some a) (hb : t[k + 1]? = some b) (hgap : a + 2 ≤ b)
+    (p : Nat) (hap : a ≤ p) (hpb : p ≤ b) :
+    (recon1G (qllM G latitude tp P) n t)[p]? =
+      some (some (qllPoint G latitude (P.cart.getD (subareaIndex t k) false) (llAt tp k) (llAt tp (k + 1))
+        (P.ce.map (·.getD (subareaIndex t k) 0)) (P.ca.map (·.getD (subareaIndex t k) 0)) (sParam a b p))) :=
+  recon1G_get (qllM G latitude tp P) (fun i => pick latitude (llAt tp i))
+    (fun j i => qllPoint_zero G latitude _ _ _ _ _ (hrt i))
+    (fun j i => qllPoint_one G latitude _ _ _ _ _ (hrt (i + 1)))
+    t n hinc hn k a b ha hb hgap p hap hpb
+
+/-- **Every latitude (longitude) tie point is reproduced exactly at its tie point index**, in
+both branches of the method and whatever the coefficients. -/
+theorem C16_qll_tie_exact (G : Geo) (latitude : Bool) (tp : List LL) (P : QParams)
+    (hrt : RoundTrip G latitude tp) (t : List Nat) (n : Nat)
+    (hwf : wfAreas true t = true) (hn : ∀ x ∈ t, x < n) (k a : Nat) (ha : t[k]? = some a) :
+    (recon1G (qllM G latitude tp P) n t)[a]? = some (some (pick latitude (llAt tp k))) := by
+  have hinc := wfAreas_pairwise t true hwf
+  rcases wfAreas_pair t true hwf k a ha with ⟨_, hf⟩ | ⟨b, hb, hab⟩ | ⟨k', a', hk, ha', haa⟩
+  · simp at hf
+  · rw [C16_qll_reconstitution G latitude tp P hrt t n hinc hn k a b ha hb hab a (Nat.le_refl _) (by omega),
+      (sParam_ends a b (by omega)).1]
+    exact congrArg (fun x => some (some x)) (qllPoint_zero G latitude _ _ _ _ _ (hrt k))
+  · subst hk
+    rw [C16_qll_reconstitution G latitude tp P hrt t n hinc hn k' a' a ha' ha haa a (by omega) (Nat.le_refl _),
+      (sParam_ends a' a (by omega)).2]
+    exact congrArg (fun x => some (some x)) (qllPoint_one G latitude _ _ _ _ _ (hrt (k' + 1)))
+
+example : (recon1G (qllM toyGeo true [(10, 5), (20, 15), (35, 30)] ⟨some [1 / 8, 1 / 4], none, [true, false]⟩)
+    9 [0, 4, 8])[4]? = some (some 20) := by decide +kernel
+example : (recon1G (qllM toyGeo true [(10, 5), (20, 15), (35, 30)] ⟨some [1 / 8, 1 / 4], none, [true, false]⟩)
+    9 [0, 4, 8])[2]? = some (some ((-311135 : Rat) / 64)) := by decide +kernel
+
+/-- The latitude-longitude branch of /repo HEAD raises (TypeError) instead of returning a value;
+the patched branch interpolates quadratically between the tie points through the mid point of
+the cartesian curve. -/
+theorem C16_old_qll_noncartesian_counterexample :
+    qllPointOld toyGeo true false (10, 5) (20, 15) (some (1 / 8)) none (1 / 2) = none ∧
+    qllPoint toyGeo true false (10, 5) (20, 15) (some (1 / 8)) none (1 / 2) =
+      qllPoint toyGeo true true (10, 5) (20, 15) (some (1 / 8)) none (1 / 2) := by decide +kernel
+
+/-- The tie points of a 2-d tie point array survive the round trip. -/
+def RoundTrip2 (G : Geo) (latitude : Bool) (tp : List (List LL)) : Prop :=
+  ∀ i j, G.v2ll latitude (G.ll2v (llAt2 tp i j).1 (llAt2 tp i j).2) = pick latitude (llAt2 tp i j)
+
+/-- **Reconstitution, `bi_quadratic_latitude_longitude`**: the element at `(p0, p1)`, in the part
+of the target domain that the interpolation subarea `(k0, k1)` writes (from its low index —
+`a` when tie point `k` opens its continuous area, else `a + 1` — to `b` in each dimension), is
+Appendix J's `bi_quadratic_latitude_longitude` value at `(s(a0, b0, p0), s(a1, b1, p1))` with
+the four tie points of the subarea, `ce1`/`ca1` taken at the two tie point rows and this
+subarea column, `ce2`/`ca2` at this subarea row and the two tie point columns, `ce3`/`ca3` and the
+flag at this subarea. -/
+theorem C16_bqll_reconstitution (G : Geo) (latitude : Bool) (tp : List (List LL)) (P : BQParams)
+    (t0 t1 : List Nat) (n0 n1 : Nat)
+    (hinc0 : t0.Pairwise (· < ·)) (hinc1 : t1.Pairwise (· < ·))
+    (hn0 : ∀ x ∈ t0, x < n0) (hn1 : ∀ x ∈ t1, x < n1)
+    (k0 a0 b0 : Nat) (ha0 : t0[k0]? = some a0) (hb0 : t0[k0 + 1]? = some b0) (hg0 : a0 + 2 ≤ b0)
+    (k1 a1 b1 : Nat) (ha1 : t1[k1]? = some a1) (hb1 : t1[k1 + 1]? = some b1) (hg1 : a1 + 2 ≤ b1)
+    (p0 : Nat) (h0 : lowVertex (areaStart t0 k0) a0 ≤ p0) (h0' : p0 ≤ b0)
+    (p1 : Nat) (h1 : lowVertex (areaStart t1 k1) a1 ≤ p1) (h1' : p1 ≤ b1) :
+    ((recon2G (bqllM G latitude tp P) n0 n1 t0 t1)[p0]?.bind (·[p1]?)) =
+      some (some (bqllM G latitude tp P (subareaIndex t0 k0) (subareaIndex t1 k1) k0 k1
+        (sParam a0 b0 p0) (sParam a1 b1 p1))) :=
+  recon2G_owned (bqllM G latitude tp P) t0 t1 n0 n1 hinc0 hinc1 hn0 hn1 k0 a0 b0 ha0 hb0 hg0
+    k1 a1 b1 ha1 hb1 hg1 p0 h0 h0' p1 h1 h1'
+
+/-- **The tie point at the far corner of every 2-d interpolation subarea is reproduced exactly**
+(and so are the other three corners where the subarea opens a continuous area in that
+dimension — in a well-formed index vector every tie point is such a corner of some subarea). -/
+theorem C16_bqll_corners (G : Geo) (latitude : Bool) (tp : List (List LL)) (P : BQParams)
+    (hrt : RoundTrip2 G latitude tp) (t0 t1 : List Nat) (n0 n1 : Nat)
+    (hinc0 : t0.Pairwise (· < ·)) (hinc1 : t1.Pairwise (· < ·))
+    (hn0 : ∀ x ∈ t0, x < n0) (hn1 : ∀ x ∈ t1, x < n1)
+    (k0 a0 b0 : Nat) (ha0 : t0[k0]? = some a0) (hb0 : t0[k0 + 1]? = some b0) (hg0 : a0 + 2 ≤ b0)
+    (k1 a1 b1 : Nat) (ha1 : t1[k1]? = some a1) (hb1 : t1[k1 + 1]? = some b1) (hg1 : a1 + 2 ≤ b1) :
+    let u := recon2G (bqllM G latitude tp P) n0 n1 t0 t1
+    (u[b0]?.bind (·[b1]?)) = some (some (pick latitude (llAt2 tp (k0 + 1) (k1 + 1)))) ∧
+    (areaStart t0 k0 = true → (u[a0]?.bind (·[b1]?)) = some (some (pick latitude (llAt2 tp k0 (k1 + 1))))) ∧
+    (areaStart t1 k1 = true → (u[b0]?.bind (·[a1]?)) = some (some (pick latitude (llAt2 tp (k0 + 1) k1)))) ∧
+    (areaStart t0 k0 = true → areaStart t1 k1 = true →
+      (u[a0]?.bind (·[a1]?)) = some (some (pick latitude (llAt2 tp k0 k1)))) := by
+  intro u
+  have e0 := sParam_ends a0 b0 (by omega)
+  have e1 := sParam_ends a1 b1 (by omega)
+  have hv0 : lowVertex (areaStart t0 k0) a0 ≤ b0 := by simp only [lowVertex]; split <;> omega
+  have hv1 : lowVertex (areaStart t1 k1) a1 ≤ b1 := by simp only [lowVertex]; split <;> omega
+  have key := fun p0 h0 h0' p1 h1 h1' => C16_bqll_reconstitution G latitude tp P t0 t1 n0 n1 hinc0 hinc1
+    hn0 hn1 k0 a0 b0 ha0 hb0 hg0 k1 a1 b1 ha1 hb1 hg1 p0 h0 h0' p1 h1 h1'
+  have c := fun cart ce1 ca1 ce2 ca2 ce3 ca3 => bqllPoint_corners G latitude cart
+    (llAt2 tp k0 k1) (llAt2 tp k0 (k1 + 1)) (llAt2 tp (k0 + 1) k1) (llAt2 tp (k0 + 1) (k1 + 1))
+    ce1 ca1 ce2 ca2 ce3 ca3 (hrt _ _) (hrt _ _) (hrt _ _) (hrt _ _)
+  refine ⟨?_, ?_, ?_, ?_⟩
+  · simp only [u]
+    rw [key b0 hv0 (Nat.le_refl _) b1 hv1 (Nat.le_refl _), e0.2, e1.2]
+    exact congrArg (fun x => some (some x)) (c _ _ _ _ _ _ _).2.2.2
+  · intro hs0
+    simp only [u]
+    rw [key a0 (by rw [hs0]; simp [lowVertex]) (by omega) b1 hv1 (Nat.le_refl _), e0.1, e1.2]
+    exact congrArg (fun x => some (some x)) (c _ _ _ _ _ _ _).2.1
+  · intro hs1
+    simp only [u]
+    rw [key b0 hv0 (Nat.le_refl _) a1 (by rw [hs1]; simp [lowVertex]) (by omega), e0.2, e1.1]
+    exact congrArg (fun x => some (some x)) (c _ _ _ _ _ _ _).2.2.1
+  · intro hs0 hs1
+    simp only [u]
+    rw [key a0 (by rw [hs0]; simp [lowVertex]) (by omega) a1 (by rw [hs1]; simp [lowVertex]) (by omega),
+      e0.1, e1.1]
+    exact congrArg (fun x => some (some x)) (c _ _ _ _ _ _ _).1
+
+/-- In a well-formed index vector every tie point closes an interpolation subarea or opens a
+continuous area (and then an interpolation subarea). -/
+theorem wf_owner (t : List Nat) (hwf : wfAreas true t = true) (k a : Nat) (ha : t[k]? = some a) :
+    (∃ k' a', k = k' + 1 ∧ t[k']? = some a' ∧ a' + 2 ≤ a) ∨
+    (areaStart t k = true ∧ ∃ b, t[k + 1]? = some b ∧ a + 2 ≤ b) := by
+  have hinc := wfAreas_pairwise t true hwf
+  cases hst : areaStart t k with
+  | false => exact Or.inl (prev_gap t hinc k a ha hst)
+  | true =>
+    rcases wfAreas_pair t true hwf k a ha with ⟨_, hf⟩ | ⟨b, hb, hab⟩ | ⟨k', a', hk, ha', haa⟩
+    · simp at hf
+    · exact Or.inr ⟨rfl, b, hb, hab⟩
+    · exact Or.inl ⟨k', a', hk, ha', haa⟩
+
+/-- **Every latitude (longitude) tie point of a 2-d tie point array is reproduced exactly at its
+pair of tie point indices** (`bi_quadratic_latitude_longitude`, well-formed index vectors, both
+branches of the method, any coefficients). -/
+theorem C16_bqll_tie_exact (G : Geo) (latitude : Bool) (tp : List (List LL)) (P : BQParams)
+    (hrt : RoundTrip2 G latitude tp) (t0 t1 : List Nat) (n0 n1 : Nat)
+    (hwf0 : wfAreas true t0 = true) (hwf1 : wfAreas true t1 = true)
+    (hn0 : ∀ x ∈ t0, x < n0) (hn1 : ∀ x ∈ t1, x < n1)
+    (k0 a0 : Nat) (ha0 : t0[k0]? = some a0) (k1 a1 : Nat) (ha1 : t1[k1]? = some a1) :
+    ((recon2G (bqllM G latitude tp P) n0 n1 t0 t1)[a0]?.bind (·[a1]?)) =
+      some (some (pick latitude (llAt2 tp k0 k1))) := by
+  have hinc0 := wfAreas_pairwise t0 true hwf0
+  have hinc1 := wfAreas_pairwise t1 true hwf1
+  have corners := fun k0 a0 b0 ha0 hb0 hg0 k1 a1 b1 ha1 hb1 hg1 =>
+    C16_bqll_corners G latitude tp P hrt t0 t1 n0 n1 hinc0 hinc1 hn0 hn1 k0 a0 b0 ha0 hb0 hg0
+      k1 a1 b1 ha1 hb1 hg1
+  rcases wf_owner t0 hwf0 k0 a0 ha0 with ⟨k0', a0', hk0, ha0', hg0⟩ | ⟨hs0, b0, hb0, hg0⟩ <;>
+    rcases wf_owner t1 hwf1 k1 a1 ha1 with ⟨k1', a1', hk1, ha1', hg1⟩ | ⟨hs1, b1, hb1, hg1⟩
+  · subst hk0 hk1
+    exact (corners k0' a0' a0 ha0' ha0 hg0 k1' a1' a1 ha1' ha1 hg1).1
+  · subst hk0
+    exact (corners k0' a0' a0 ha0' ha0 hg0 k1 a1 b1 ha1 hb1 hg1).2.2.1 hs1
+  · subst hk1
+    exact (corners k0 a0 b0 ha0 hb0 hg0 k1' a1' a1 ha1' ha1 hg1).2.1 hs0
+  · exact (corners k0 a0 b0 ha0 hb0 hg0 k1 a1 b1 ha1 hb1 hg1).2.2.2 hs0 hs1
+
+example : wfAreas true [0, 2] = true ∧ ([0, 2] : List Nat)[1]? = some 2 := by decide
+
+example : ((recon2G (bqllM toyGeo false [[(0, 0), (1, 10)], [(5, 2), (7, 13)]]
+      ⟨some (fun _ _ => 1 / 4), none, none, some (fun _ _ => 1 / 2), none, none, fun _ _ => false⟩)
+    3 3 [0, 2] [0, 2])[2]?.bind (·[2]?)) = some (some 13) := by decide +kernel
+
+/-! ### dependent tie points as handed over by the reader -/
+
+theorem conformDep_eq_conform {α} (D : Nat) (tdims : List Nat) (T : Arr α) (h : tdims.length = D) :
+    conformDep D tdims T = conform D tdims T := by
+  unfold conformDep conform conformGo
+  split
+  · rfl
+  · simp [h]
+
+/-- **The dependent tie points of a multivariate method are matched dimension by dimension**: for
+a coordinate whose tie point array has the (distinct) dimensions `axes` and a dependent coordinate
+storing the same dimensions in ANY order `a`, the dependent array conformed with the dimensions the
+reader records has, at the coordinate's own multi-index `idx`, the stored element whose index along
+its own dimension `a[q]` is `idx` at the position of that dimension in `axes`. -/
+theorem C16_read_dependent_tie_points {α} (axes a : List String) (T : Arr α)
+    (hnd : a.Nodup) (hsub : ∀ x ∈ a, x ∈ axes) (hlen : a.length = axes.length)
+    (hT : T.shape.length = a.length) (idx : List Nat) (hidx : idx.length = axes.length) :
+    (conformDep axes.length (readDependentDims axes a) T).get idx =
+      T.get (a.map (fun x => idx.getD (axes.idxOf x) 0)) := by
+  have hl : (readDependentDims axes a).length = axes.length := by simp [readDependentDims, hlen]
+  rw [conformDep_eq_conform _ _ _ hl]
+  have hnd' : (readDependentDims axes a).Nodup := by
+    unfold readDependentDims
+    apply List.Nodup.map_on _ hnd
+    intro x hx y hy hxy
+    have h1 : axes[axes.idxOf x]'(List.idxOf_lt_length_of_mem (hsub x hx)) = x := List.getElem_idxOf _
+    have h2 : axes[axes.idxOf y]'(List.idxOf_lt_length_of_mem (hsub y hy)) = y := List.getElem_idxOf _
+    rw [← h1, ← h2]
+    congr 1
+  have hlt : ∀ d ∈ readDependentDims axes a, d < axes.length := by
+    intro d hd
+    simp only [readDependentDims, List.mem_map] at hd
+    obtain ⟨x, hx, rfl⟩ := hd
+    exact List.idxOf_lt_length_of_mem (hsub x hx)
+  rw [conform_get _ _ T hnd' hlt (by rw [hT, hl, hlen]) idx hidx]
+  simp only [readDependentDims, List.map_map]
+  rfl
+
+/-- latitude tie points `(x, tp0, tp1)`, longitude tie points stored `(tp0, tp1, x)`: the reader
+of /repo HEAD records the inverse permutation `(2, 0, 1)`, with which the element asked for at
+`(x, tp0, tp1) = (1, 0, 2)` is not the stored `lon[tp0 = 0, tp1 = 2, x = 1]`. -/
+theorem C16_old_dependent_dimensions_counterexample :
+    readDependentDimsOld ["x", "tp0", "tp1"] ["tp0", "tp1", "x"] = [2, 0, 1] ∧
+    readDependentDims ["x", "tp0", "tp1"] ["tp0", "tp1", "x"] = [1, 2, 0] ∧
+    (conformDep 3 [1, 2, 0] (iota [2, 3, 2])).get [1, 0, 2] = (iota [2, 3, 2]).get [0, 2, 1] ∧
+    (conformDep 3 [2, 0, 1] (iota [2, 3, 2])).get [1, 0, 2] ≠ (iota [2, 3, 2]).get [0, 2, 1] := by
+  decide
 
 end Cfdm.Props.C16
